@@ -188,9 +188,21 @@ func init() {
 		iv := "i!join"
 		e := ex.sliceLoad(c.st, va, iv)
 		anyNN := "(exists ((" + iv + " Int)) " + and(app("<=", "0", iv), app("<", iv, va.L[2]), not(eq(e.L[0], "0"))) + ")"
-		v := ex.newWrappedError(c.st, nil, "true", "join")
+		v := ex.newWrappedError2(c.st, nil, "true", "join", true)
 		nn := ex.freshConst("joinnn", sBool)
+		// the chain of the result is the union of the chains of the elements
+		for _, k := range ex.trackedChainIDs() {
+			ck := ex.chainTerm(v, k)
+			ex.assume("(forall ((" + iv + " Int)) (! " + imp(and(app("<=", "0", iv), app("<", iv, va.L[2]), ex.chainTerm(e, k)), ck) + " :pattern (" + e.L[0] + ")))")
+			ex.assume(imp(ck, "(exists (("+iv+" Int)) "+and(app("<=", "0", iv), app("<", iv, va.L[2]), ex.chainTerm(e, k))+")"))
+		}
 		ex.assume(eq(nn, anyNN))
+		// ground witnesses: a non-nil first or last element makes the result non-nil
+		e0 := ex.sliceLoad(c.st, va, "0")
+		el := ex.sliceLoad(c.st, va, app("-", va.L[2], "1"))
+		ex.assume(imp(and(app("<", "0", va.L[2]), or(not(eq(e0.L[0], "0")), not(eq(el.L[0], "0")))), nn))
+		// every non-nil element is in the chain of the result (errors.Is / errors.As see each joined error)
+		ex.assume("(forall ((" + iv + " Int)) (! " + imp(and(app("<=", "0", iv), app("<", iv, va.L[2]), not(eq(e.L[0], "0"))), app("err.wraps", v.L[0], v.L[1], e.L[0], e.L[1])) + " :pattern (" + e.L[0] + ")))")
 		out := Val{T: errorT(), L: []string{ite(nn, v.L[0], "0"), ite(nn, v.L[1], "0")}}
 		ex.used["errors.Join over a dynamic slice: membership of each element in the chain is assumed, not derived"] = true
 		return out
